@@ -150,18 +150,19 @@ func (w *World) Addrs(includeOpen bool) []string {
 
 // StoreCfg drives the event generator used for store histories.
 type StoreCfg struct {
-	World        *World
-	TsBase       int64
-	TsSpan       int64 // timestamps in [TsBase, TsBase+TsSpan]
-	UniqueTs     bool  // strictly distinct timestamps (no ties)
-	usedTs       map[int64]bool
-	NoEphemeral  bool
-	NoNoD        bool // never generate addressable events without d tag
-	NoOpenRefs   bool // never reference replaceable addresses / d-less addressable in a tags
-	UnicodeText  bool
-	WeightKind5  int  // relative weight of deletion requests (default 2)
-	ThreeElemRef bool // allow ["e", id, "wss://r"] forms (default true unless NoThreeElem)
-	NoThreeElem  bool
+	World         *World
+	TsBase        int64
+	TsSpan        int64 // timestamps in [TsBase, TsBase+TsSpan]
+	UniqueTs      bool  // strictly distinct timestamps (no ties)
+	usedTs        map[int64]bool
+	NoEphemeral   bool
+	NoNoD         bool // never generate addressable events without d tag
+	NoOpenRefs    bool // never reference replaceable addresses / d-less addressable in a tags
+	UnicodeText   bool
+	WeightKind5   int  // relative weight of deletion requests (default 2)
+	RegularWeight int  // extra weight of plain regular events (for stores that have to fill up)
+	ThreeElemRef  bool // allow ["e", id, "wss://r"] forms (default true unless NoThreeElem)
+	NoThreeElem   bool
 }
 
 func (c *StoreCfg) drawTs(t *rapid.T) int64 {
@@ -200,6 +201,9 @@ func (c *StoreCfg) DrawEvent(t *rapid.T) *mocrelay.Event {
 	}
 	if !c.NoEphemeral {
 		classes = append(classes, 2)
+	}
+	for i := 0; i < c.RegularWeight; i++ {
+		classes = append(classes, 0)
 	}
 	switch rapid.SampledFrom(classes).Draw(t, "class") {
 	case 0:
@@ -262,7 +266,16 @@ func (c *StoreCfg) DrawEvent(t *rapid.T) *mocrelay.Event {
 
 	if ev.Kind == 5 {
 		n := rapid.IntRange(1, 3).Draw(t, "nrefs")
+		if rapid.IntRange(0, 11).Draw(t, "manyrefs") == 0 {
+			// a client cleaning up: dozens of targets in one request
+			n = rapid.IntRange(31, 70).Draw(t, "nrefsmany")
+		}
 		for i := 0; i < n; i++ {
+			if n > 3 && i%2 == 1 {
+				// mostly targets nobody has seen, so that the known ones sit at any position
+				ev.Tags = append(ev.Tags, mocrelay.Tag{"e", FakeID(1000 + i)})
+				continue
+			}
 			ev.Tags = append(ev.Tags, drawRef(fmt.Sprintf("ref%d", i)))
 		}
 	}
